@@ -640,4 +640,34 @@ def r15_13(ctx):
                "the node's text is read without a dispatch on its type tag: a raw-number node is taken for a string (after a mutation of its parent it serialises with quotes and is_number() fails)")
 
 
-RULES = [("R15.1", r15_a), ("R15.2", r15_2), ("R15.3", r15_3), ("R15.4", r15_4), ("R15.5", r15_5), ("R15.6", r15_6), ("R15.7", r15_7), ("R15.8", r15_8), ("R15.9", r15_9), ("R15.10", r15_10), ("R15.11", r15_11), ("R15.12", r15_12), ("R15.13", r15_13)]
+def r15_14(ctx):
+    """copy-on-write promotion keeps what the lookups answered: a parsed object may repeat a member name and every lookup
+    on it returns the FIRST pair; when the pairs are moved into the owned map (From<&[Pair]> for Value) a name that is
+    already there must not be overwritten - the map is filled through `entry(..).or_insert*` or an insert guarded by a
+    failed membership test"""
+    prog = ctx.prog()
+    fs = [g for g in prog.fns.values() if g.crate == "sonic_rs" and g.name == "from" and "value::node::Value" in (g.impl or {}).get("self_ty", "") and any("Pair" in x or "(value::node::Value, value::node::Value)" in x for x in g.inputs)]
+    if len(fs) != 1:
+        ctx.fail_closed("R15.14", "From<&[Pair]> for Value")
+        return
+    f = fs[0]
+    bodies = prog.with_closures(f)
+    ins = [(g, b, t) for g in bodies for b, t in g.calls() if callee_is(t, "insert") and ("HashMap" in t["callee"] or "BTreeMap" in t["callee"])]
+    ent = [(g, b, t) for g in bodies for b, t in g.calls() if callee_is(t, "or_insert", "or_insert_with", "or_insert_with_key", "or_default")]
+    bad = []
+    for g, b, t in ins:
+        guarded = False
+        for cb, ct in g.calls():
+            if callee_is(ct, "contains_key", "get") and g.dominates(cb, b):
+                e = bool_switch_edges(g, ct["dest"][0]) if callee_is(ct, "contains_key") else None
+                if e and (e[1] == b or g.dominates(e[1], b)) and b not in g.reachable_from(e[0], avoid={e[1]}):
+                    guarded = True
+        if not guarded:
+            bad.append(t["ln"])
+    ok = (bool(ins) or bool(ent)) and not bad
+    ctx.ob("R15.14", "promotion:first-of-repeated-names-kept", ok, f.loc(bad[0] if bad else None),
+           "the owned map is filled without overwriting a name that is already there (first pair wins, as in the lookups on the parsed object)" if ok else
+           "the pairs are inserted one after the other, so the LAST pair of a repeated name replaces the first: after any mutation of the object (even of an unrelated member) v[name] answers differently than before")
+
+
+RULES = [("R15.1", r15_a), ("R15.2", r15_2), ("R15.3", r15_3), ("R15.4", r15_4), ("R15.5", r15_5), ("R15.6", r15_6), ("R15.7", r15_7), ("R15.8", r15_8), ("R15.9", r15_9), ("R15.10", r15_10), ("R15.11", r15_11), ("R15.12", r15_12), ("R15.13", r15_13), ("R15.14", r15_14)]
